@@ -58,6 +58,14 @@ TABLES = {               # name -> (synth system, -s argument)
     "ortho9+s": ("orthorhombic", "orthorhombic"),
     "cubic+s": ("cubic", "cubic"),
     "trigonal7+s": ("trigonal7", "trigonal7"),
+    # every other packaged system; synth.BASE_C has non-zero distinguishing constants (c16 = 7 for tetragonal7,
+    # c14 = 12 / c15 = -9 trigonal, c15, c25, c35, c46 monoclinic), expected fill from the Laue-class invariants
+    "tetragonal7+s": ("tetragonal7", "tetragonal7"),
+    "tetragonal6+s": ("tetragonal6", "tetragonal6"),
+    "trigonal6+s": ("trigonal6", "trigonal6"),
+    "hexagonal+s": ("hexagonal", "hexagonal"),
+    "monoclinic+s": ("monoclinic", "monoclinic"),
+    "triclinic+s": ("triclinic", "triclinic"),
 }
 CELLMASS = 57.25
 DIMS = OrderedDict([
@@ -65,7 +73,10 @@ DIMS = OrderedDict([
     ("n", [101, 11, 401]),
     ("prange", ["r0", "r1"]),
     ("sample", [None, 2, 5]),
-    ("table", ["ortho9", "none", "ortho9+s", "cubic+s", "trigonal7+s"]),
+    ("table", ["ortho9", "none", "ortho9+s", "cubic+s", "trigonal7+s", "tetragonal7+s", "tetragonal6+s", "trigonal6+s", "hexagonal+s",
+               "monoclinic+s", "triclinic+s"]),
+    # columns of the table: the independent constants only, or every non-vanishing constant (symmetry-related ones listed too)
+    ("compset", ["minimal", "nonzero"]),
     ("cellmass", [None, CELLMASS]),
     ("data", ["bm3", "quad", "noise"]),
     ("nv", [6, 4, 12]),
@@ -74,8 +85,10 @@ DIMS = OrderedDict([
     ("order01", ["desc", "asc", "smallest-first", "largest-last", "middle-first"]),
     ("order02", ["desc", "asc", "middle-first"]),
     ("vratio", [None, 1.05, 1.5]),
+    # number format of the `P= V= E=` volume headers of INPUT01: plain decimals, exponent notation (%E), explicit + sign
+    ("pve", ["f", "E", "plus"]),
 ])
-PRESENTATION = ("order01", "order02", "vratio")
+PRESENTATION = ("order01", "order02", "vratio", "pve")
 # explicit pressure requests (P_MIN, DELTA_P, n) with step sizes that are not binary fractions; all inside the fitted range
 REQUESTS = [(pmin, dp, n) for dp in (0.1, 0.3, 0.7) for n in (30, 53, 61, 101) for pmin in (0.0, -5.0, 0.1) if pmin + dp * (n - 1) <= 65.0]
 
@@ -149,7 +162,8 @@ def table_of(data, ds):
 def write_inputs(d, case):
     """writes input01 (and elast.dat); returns the file arguments of the command line"""
     system, sarg = TABLES[case["table"]]
-    spec = dict(nv=case["nv"], nq=1, na=1, system=system or "orthorhombic", compset="minimal", static="generic")
+    spec = dict(nv=case["nv"], nq=1, na=1, system=system or "orthorhombic", compset=case.get("compset") or "minimal", static="generic",
+                pve=case.get("pve") or "f")
     ds = synth.make(spec)
     ds["energies"] = energies_of(case["data"], ds["vols"])
     with open(os.path.join(d, "input01"), "w") as fp:
@@ -475,6 +489,8 @@ def canon(case):
     if c["table"] == "none":
         c["tabvols"] = "same"
         c["order02"] = "desc"
+    if c["table"] in ("none", "ortho9", "ortho9+s", "triclinic+s"):      # minimal = non-vanishing there
+        c["compset"] = "minimal"
     return c
 
 
@@ -529,13 +545,17 @@ def anchored_cases(quick):
 def explore(ctx):
     ctx.rule = ("mode A: deviation lattice over mode (3) x -n (11,101,401) x pressure range (2, inside the fitted range; DELTA_P = span/(n-1)) x "
                 "--delta-p-sample (absent, 2x, 5x DELTA_P) x static table (absent, orthotropic 9, orthotropic 9 + -s, cubic 3 + -s cubic, "
-                "trigonal 7 + -s trigonal7) x --cellmass (absent, given) x data (exactly quadratic in f, BM3 with B0'=5.5, BM3 + deterministic noise; "
+                "trigonal 7 + -s trigonal7, and likewise tetragonal7, tetragonal6, trigonal6, hexagonal, monoclinic, triclinic: every packaged system, with non-zero "
+                "distinguishing constants c16 / c14,c15 / c15,c25,c35,c46; expected fill from the Laue-class invariants of laue_ref) x table columns (independent "
+                "constants only, every non-vanishing constant) x --cellmass (absent, given) x data (exactly quadratic in f, BM3 with B0'=5.5, BM3 + deterministic noise; "
                 "the table likewise) x number of volumes (6,4,12) x table volumes (same as the energies, a different 5-volume set) x presentation: "
                 "order of the volume blocks of INPUT01 (descending, ascending, smallest first, largest last, middle first) x row order of INPUT02 "
-                "(descending, ascending, middle first) x --v-ratio (default, 1.05, 1.5); every configuration is one in-process `cij run-static` whose "
+                "(descending, ascending, middle first) x --v-ratio (default, 1.05, 1.5) x number format of the P= V= E= headers of INPUT01 (plain decimals, "
+                "%E exponent notation, explicit + sign); every configuration is one in-process `cij run-static` whose "
                 "stdout table is compared cell by cell with static_ref (order-independent least squares; mode-none rows in the file's order). "
-                "quick: <= 2 deviations from the default; thorough: <= 3 deviations over all 12 dimensions + the full product of the 9 data/option "
-                "dimensions in the default presentation + the full product of the 3 presentation dimensions x mode x n x table (3) x data. "
+                "quick: <= 2 deviations from the default; thorough: <= 3 deviations over all 14 dimensions + the full product of the 9 data/option "
+                "dimensions (all 11 tables) in the default presentation + the full product of the 4 presentation dimensions x mode x n (101, 11) x table (3) x data "
+                "+ the full product table (11) x table columns x mode x data x table volumes x INPUT02 order. "
                 "Plus explicit pressure requests P_MIN in {0,-5,0.1} x DELTA_P in {0.1,0.3,0.7} x n in {30,53,61,101} (inside the fitted range) x table x "
                 "INPUT01 order; range-edge requests: last pressure = top - bound - c DELTA_P with P_MIN in {-5,0,10}, and first pressure = bottom + bound + c DELTA_P "
                 "with last pressure in {-5,0,10}, c in {0.35,0.5,0.8,1.5,5}, n in {41,101,201,401}, top/bottom = the reference's P at the ends of the n-point "
@@ -560,13 +580,19 @@ def explore(ctx):
     else:
         _, res = ctx.run_lattice(MOD, "run_case", dims, 3, part="lattice<=3", canon=canon, chunksize=2)
         allres += res
-        core = OrderedDict((k, (list(v) if k not in PRESENTATION else [v[0]])) for k, v in DIMS.items())
+        core = OrderedDict((k, (list(v) if k not in PRESENTATION + ("compset",) else [v[0]])) for k, v in DIMS.items())
         _, res = ctx.run_lattice(MOD, "run_case", core, None, part="full-product:data-and-options", canon=canon, chunksize=4)
         allres += res
         pres = OrderedDict((k, [v[0]]) for k, v in DIMS.items())
-        for k in PRESENTATION + ("mode", "n", "data"):
+        for k in PRESENTATION + ("mode", "data"):
             pres[k] = list(DIMS[k])
+        pres["n"] = [101, 11]
         pres["table"] = ["ortho9", "none", "trigonal7+s"]
+        systems = OrderedDict((k, [v[0]]) for k, v in DIMS.items())
+        for k in ("table", "compset", "mode", "data", "tabvols", "order02"):
+            systems[k] = list(DIMS[k])
+        _, res = ctx.run_lattice(MOD, "run_case", systems, None, part="full-product:systems", canon=canon, chunksize=4)
+        allres += res
         _, res = ctx.run_lattice(MOD, "run_case", pres, None, part="full-product:presentation", canon=canon, chunksize=4)
         allres += res
     ctx.notes["alphabets"] = {k: len(v) for k, v in dims.items()}
